@@ -118,10 +118,7 @@ def run(ctx):
         raise vlib.Infra("vacuous coverage: %s" % cov)
     if not all(r["st"]["hs"] for r in rows):
         raise vlib.Infra("store hashes missing from the trace")
-    variant, ra, rf = _pay.conf(ctx, tpath, "c05_conf")
-    ctx.cov["conforms_to"] = variant
-    if variant is None:
-        ctx.drift.append("real chain is not a behaviour of Payments.tla: as-found transcription accepted %s lines, repaired %s of %d" % (ra, rf, len(rows)))
+    _pay.note_conf(ctx, tpath, "c05_conf", len(rows))
     ctx.assumptions += _pay.ASSUMPTIONS + [
         "bank balances live outside the store in the mock bank; chainx.Tx restores them for a failed transaction, so 'balances unchanged' is "
         "observed through the stores only (RelayPayment moves no coins)"]
